@@ -56,6 +56,20 @@ CHECKS["C19"] = dict(
          "and scalar privatisation are trusted; simulate_ism is outside the property.",
     design="DESIGN.md section 4 (C19)")
 
+CHECKS["C06"] = dict(
+    engine="E2 pysym on the real Filterbank reductions + read_plan/FileReader stack, kernels as contracts established by E1 nbsym; z3",
+    technique="dynamic symbolic execution of the real collapse/bandpass/read_chan/dedisperse/compute_stats bytecode over symbolic files with functional arrays; kernel contracts proved from numba's typed IR; z3 (LIA+UF, Skolem index) decides; models replayed on the real FilReader",
+    text="The real reduction methods run on the real read_plan and multi-file reader over symbolic files; N, gulp, start, nsamps (or None), "
+         "maxdelay, the per-channel delays and the channel index are unbounded integers, the number of blocks is bounded (3 quick / 4 thorough). "
+         "Per path z3 proves: no in-range request raises, the output has the defined length, every output element equals its definition over the "
+         "uninterpreted sample model (sum over channels, column, sum of delay-shifted channels), nothing is read uninitialised or accumulated "
+         "twice, accumulating kernels receive consecutive slices that tile the request, divisors / accumulator sizes equal the samples seen, "
+         "and every kernel precondition (numba does no bounds checks) holds. The kernel contracts are themselves established from numba's "
+         "typed IR on arbitrary data at small shapes; a kernel that no longer meets its definition is replayed against a numpy oracle.",
+    note="Arithmetic over the reals (exactness premise for float32 sums). Delays assumed 0 at channel 0, non-decreasing, <= maxdelay < nsamps. "
+         "Kernel contracts are proved at small shapes and used at unbounded sizes (stated gap). Plans beyond the block bound are cut and counted.",
+    design="DESIGN.md section 4 (C06)")
+
 NOT_APPLICABLE = {}
 
 PENDING = "check not built yet in this round (see DESIGN.md section 8 for the build order); no claim is made"
